@@ -84,6 +84,16 @@ func genC02(r *Rand, idx int, tier string) Case {
 			s.Do(0, root, &nfsx.Req{Proc: PickStr(r, "READDIR", "READDIRPLUS", "GETATTR"), H: nestD, Cnt: 4096, Max: 32768})
 			s.Do(0, root, &nfsx.Req{Proc: "LOOKUP", H: 1, Name: nestDir})
 		}
+		if r.Chance(8) {
+			// a file that certainly exists and is cached, resized through CREATE UNCHECKED (the one namespace request
+			// that changes an existing object's attributes), then looked at again
+			h, nm := s.pickHandle(r), pickName(r, 0)
+			s.Do(pickAdv(r), root, &nfsx.Req{Proc: "CREATE", H: h, Name: nm, How: 0})
+			s.Do(0, root, &nfsx.Req{Proc: "LOOKUP", H: h, Name: nm})
+			s.Do(pickAdv(r), root, &nfsx.Req{Proc: "CREATE", H: h, Name: nm, How: 0, Sa: nfsx.Sattr{Size: u64p(PickU64(r, 0, 3, 7, 12))}})
+			s.Do(0, root, &nfsx.Req{Proc: "LOOKUP", H: h, Name: nm})
+			s.Tags["create-resize-probes"]++
+		}
 		proc := pickProc(r, c02Weights)
 		q := genReq(r, s, proc, 0)
 		// name recency bias: operate again on the name just used (lookup-then-create, create-then-lookup,
